@@ -24,6 +24,7 @@ package fingerprint
 //@   assigns nothing
 //@   ensures [C06:no-metadata-no-value] !hasMeta(req.reqCtx) ==> err != nil && fp == ""
 //@   ensures [C06:value-from-own-connection-record-only] hasMeta(req.reqCtx) ==> fp == fcall("FingerprintFunc", i.FingerprintFunc, ctxMeta(req.reqCtx))
+//@   structural [C05,C06,C07:no-state-shared-between-connections] no_package_state VerboseLogs Logger fingerprintDurationMetric metadata.FingerproxyContextKey
 //@   ensures [C03,C07:computed-from-the-record-as-it-stands-at-this-request-never-remembered] hasMeta(req.reqCtx) ==> fp == fcall("FingerprintFunc", i.FingerprintFunc, ctxMeta(req.reqCtx))
 
 //@ func NewFingerprintHeaderInjector :: headerName, fingerprintFunc -> i
@@ -32,6 +33,7 @@ package fingerprint
 //@   ensures [C01:injector-wiring] i != nil && fresh(i) && i.HeaderName == headerName && i.FingerprintFunc == fingerprintFunc
 
 //@ func (*HTTP2FingerprintParam).HTTP2Fingerprint :: p, data -> fp, err
+//@   structural [C05,C06,C03:no-state-shared-between-connections] no_package_state VerboseLogs Logger
 //@   props C03,C06
 //@   requires p != nil && data != nil
 //@   assigns nothing
@@ -51,8 +53,17 @@ package fingerprint
 //@   ensures err == nil ==> ch.HandshakeVersion == chVersion(payload) && ch.CipherSuites == chCiphers(payload) && ch.AllExtensions == chExts(payload) && ch.SupportedGroups == chGroups(payload) && ch.SupportedPoints == chPoints(payload)
 
 //@ func JA3Fingerprint :: data -> fp, err
+//@   structural [C05,C06,C01:no-state-shared-between-connections] no_package_state VerboseLogs Logger ja3.Debug ja3.sepValueByte ja3.sepFieldByte ja3.greaseValues
 //@   props C01,C06
 //@   requires data != nil
 //@   assigns nothing
 //@   ensures [C01:pure-function-of-record] err == nil ==> fp == hexstr(md5sum(ja3fields(chVersion(data.ClientHelloRecord), chCiphers(data.ClientHelloRecord), chExts(data.ClientHelloRecord), chGroups(data.ClientHelloRecord), chPoints(data.ClientHelloRecord))))
 //@   ensures [C01:no-value-on-parse-error] err != nil ==> fp == ""
+
+//@ -- C05/C06: the fingerprint functions (and everything in the module they call) use no package-level state except
+//@ -- the logging switches and read-only tables: no memo, pool or scratch buffer that another connection could share
+//@ func JA4Fingerprint :: data -> fp, err
+//@   trusted
+//@   props C05,C06,C02
+//@   assigns nothing
+//@   structural [C05,C06,C02:no-state-shared-between-connections] no_package_state VerboseLogs Logger
